@@ -9,6 +9,7 @@ import Driver.C08
 import Driver.FC
 import Driver.Seq
 import Driver.BS
+import Driver.Crash
 
 open Driver
 
@@ -18,6 +19,7 @@ inductive Eng where
   | fc (s : Driver.FC.St)
   | seq (s : Driver.Seq.St)
   | bs (s : Driver.BS.St)
+  | crash (s : Driver.Crash.St)
 
 structure DState where
   eng : Eng := .none
@@ -38,6 +40,7 @@ def newEngine (hdr : Args) : Eng :=
   | "fc" => .fc {}
   | "seq" => .seq {}
   | "bs" => .bs {}
+  | "crash" => .crash {}
   | _ => .none
 
 def stepEng (e : Eng) (l : Line) : Eng × List Msg :=
@@ -47,6 +50,7 @@ def stepEng (e : Eng) (l : Line) : Eng × List Msg :=
   | .fc s => let (s', m) := Driver.FC.step s l; (.fc s', m)
   | .seq s => let (s', m) := Driver.Seq.step s l; (.seq s', m)
   | .bs s => let (s', m) := Driver.BS.step s l; (.bs s', m)
+  | .crash s => let (s', m) := Driver.Crash.step s l; (.crash s', m)
 
 partial def loop (h : IO.FS.Stream) (out : IO.FS.Stream) (st : DState) : IO Unit := do
   let line ← h.getLine
